@@ -2,10 +2,10 @@
    Statements only; proofs in Proofs/Sources{Scan,Queue,Stdin}Proofs.v.  Models: Model/SourcesScan.v (lines
    source: split function + bufio.Scanner driver), Model/SourcesQueue.v (JSON consumer reorder queue),
    Model/SourcesStdin.v (stdin preview replay).
-   Not covered by a theorem (tie / oracle only, see design/C23.md): CSV header handling and used-column
-   projection, parquet row reconstruction. *)
-From Octo Require Import SourcesScan SourcesQueue SourcesStdin.
-From Octo Require Import SourcesScanProofs SourcesQueueProofs SourcesStdinProofs.
+   Model/SourcesCsvProj.v (CSV header handling and used-column projection, encoding/csv trusted).
+   Not covered by a theorem (oracle only, see design/C23.md): parquet row reconstruction. *)
+From Octo Require Import SourcesScan SourcesQueue SourcesStdin SourcesCsvProj.
+From Octo Require Import SourcesScanProofs SourcesQueueProofs SourcesStdinProofs SourcesCsvProjProofs.
 From Coq Require Import Permutation.
 
 (* ---- (1) the lines source splits exactly at the separator, under every chunking ---------------------- *)
@@ -122,3 +122,42 @@ Example C23_stdin_example :
   run_stdin [1;2;3;4;5;6] [[(1,0);(3,9)]; [(0,0);(0,0);(0,0);(9,1)]]%nat [(2,2);(0,0)]%nat
   = Ok ([[1;2;3;4;5]; [1;2;3;4;5]], [1;2;3;4], [5;6]).
 Proof. vm_compute. reflexivity. Qed.
+
+(* ---- (4) CSV / TSV: one record per CSV record, values[i] is the cell of the column named fields[i] ------- *)
+
+(* encoding/csv is trusted: a file is the list of records it returns.  For every file, header option, cell
+   conversion [conv] (C24 models the real one), column types, and every subset [keep] of used columns handed
+   to the execution node as its field list — provided the column names are pairwise different and all records
+   have as many cells as there are names (csv.Reader enforces it): the run is exactly
+   spec_rows: for each data record in file order, the kept cells, each converted at the type of its own
+   column; it stops at the first conversion error.  In particular fields[i], its type and values[i] all
+   belong to the i-th kept column. *)
+Theorem C23_csv_rows : forall (T C V : Type) (conv : T -> C -> outcome V) (cell_text : C -> bytes)
+    header records names data tys keep,
+  csv_names cell_text header records = Ok (names, data) ->
+  NoDup names -> length tys = length names -> length keep = length names ->
+  Forall (fun r => length r = length names) data ->
+  csv_run conv header names (select keep (combine names tys)) records = spec_rows conv keep tys data.
+Proof. intros T C V conv cell_text. exact (csv_run_spec conv cell_text). Qed.
+Print Assumptions C23_csv_rows.
+
+(* when no cell fails to convert: exactly one record per data record, in order *)
+Theorem C23_csv_one_record_per_row : forall (T C V : Type) (conv : T -> C -> outcome V) keep tys rows out,
+  spec_rows conv keep tys rows = (out, Ok tt) ->
+  Forall2 (fun r vs => spec_values conv (select keep tys) (select keep r) = Ok vs) rows out.
+Proof. intros T C V conv. exact (spec_rows_ok conv). Qed.
+Print Assumptions C23_csv_one_record_per_row.
+
+(* header=false: the generated names column_0 .. are pairwise different (by computation, up to 200 columns) *)
+Theorem C23_csv_column_names_distinct : forall n, (n <= 200)%nat -> NoDup (map column_i (seq 0 n)).
+Proof. exact column_names_nodup_200. Qed.
+Print Assumptions C23_csv_column_names_distinct.
+
+(* Non-vacuity: header a,b,c; SELECT a, c; the second record fails on its c cell. *)
+Example C23_csv_example :
+  let conv := fun (t : Z) (c : Z) => if c =? 0 then Err 7 else Ok (t * 100 + c) in
+  let recs := [[1;2;3]; [4;5;6]; [7;8;0]; [1;1;1]] in
+  csv_names (fun c => [c]) true recs = Ok ([[1];[2];[3]], [[4;5;6]; [7;8;0]; [1;1;1]]) /\
+  csv_run conv true [[1];[2];[3]] (select [true;false;true] (combine [[1];[2];[3]] [10;20;30])) recs
+  = ([[1004; 3006]], Err 7).
+Proof. split; vm_compute; reflexivity. Qed.
